@@ -337,9 +337,9 @@ func vkBuild(thorough bool) *vkUniverse {
 
 	// ---- D': scripted referrals by a self-referring / upward-referring / ever-deeper server.
 	g.zone(zonemodel.ZoneSpec{Apex: "sr.t.", Mode: zonemodel.Unsigned})
-	for _, sp := range []string{"selfref", "upref-t", "upref-root", "sideways", "deeper"} {
+	for _, sp := range []string{"selfref", "upref-t", "upref-root", "sideways", "deeper", "restart-deeper"} {
 		q := "w.sr.t."
-		if sp == "deeper" {
+		if sp == "deeper" || sp == "restart-deeper" {
 			q = "a.b.c.d.e.f.g.h.sr.t."
 		}
 		add(vkTopo{ID: "referral/" + sp, Family: "referral", QName: q, Special: sp})
@@ -565,7 +565,30 @@ func (g *vkUniverse) vkInstall(sim *authsim.Sim, tp vkTopo) {
 				sim.Script(key("sr.t.", n, t, -1), tr)
 			}
 		}
-	case "deeper":
+	case "deeper", "restart-deeper":
+		if tp.Special == "restart-deeper" {
+			// The parent's server answers the first minimised probes with empty NOERROR, so the resolver's
+			// minimisation level walks past the zone cut, and then returns a valid, progressing referral
+			// whose owner (sr.t.) has FEWER labels than the level reached: the resolver starts over at the
+			// root without minimisation. The restarted resolution then meets the ever-deeper chain below —
+			// all of it is the same request tree and counts against the same budgets.
+			empty := func(q authsim.Query, h *dns.Msg) authsim.Action {
+				m := new(dns.Msg)
+				m.Response = true
+				m.Authoritative = true
+				m.Question = h.Question
+				return authsim.Action{Msg: m, Changed: true}
+			}
+			labels := dns.SplitDomainName(tp.QName)
+			for _, t := range []uint16{dns.TypeA, dns.TypeNS} {
+				sim.Script(key("t.", "sr.t.", t, -1), empty)
+				sim.Script(key("t.", zonemodel.Canon(strings.Join(labels[len(labels)-3:], ".")), t, -1), empty) // h.sr.t.
+				for k := 4; k < len(labels); k++ { // g.h.sr.t., f.g.h.sr.t., ... (never the full name)
+					n := zonemodel.Canon(strings.Join(labels[len(labels)-k:], "."))
+					sim.Script(key("t.", n, t, -1), vkReferral("sr.t.", "ns.sr.t.", zoneAddr("sr.t.")))
+				}
+			}
+		}
 		// every query below sr.t. is answered with a referral one label deeper than the last one
 		// (all "zones" served by this same server): an ever-deeper delegation chain.
 		var mu sync.Mutex
